@@ -3,7 +3,8 @@
 import sys, os, shutil, json, re
 prop, k, slug, caught, missed = sys.argv[1:6]
 src = os.environ.get("MUT_SRC", f"/tmp/mut-{prop}")
-dst = f"/verif/seeded/{prop}-m{k}-{slug}"
+rnd = os.environ.get("MUT_ROUND", "")
+dst = f"/verif/seeded/{prop}-{rnd}m{k}-{slug}"
 os.makedirs(dst, exist_ok=True)
 shutil.copy(f"{src}/mutant{k}.diff", f"{dst}/patch.diff")
 shutil.copy(f"{src}/demo{k}.rs", f"{dst}/demo.rs")
